@@ -666,6 +666,7 @@ Array<T>& Array<T>::insert(int k, const T& x)
 	int s = h->s;
 	if (k == -1)
 		k = n;
+	int ix = (&x >= _a && &x < _a + n) ? int(&x - _a) : -1; // x may be an element of this array
 	if (n < s) {}
 	else
 	{
@@ -683,7 +684,7 @@ Array<T>& Array<T>::insert(int k, const T& x)
 	if (k < n) {
 		memmove((char*)_a + (k + 1) * sizeof(T), (void*)(_a + k), (n - k) * sizeof(T));
 	}
-	asl_construct_copy(_a + k, x);
+	asl_construct_copy(_a + k, ix < 0 ? x : _a[ix < k ? ix : ix + 1]); // it moved with the block / the shift
 	h->n = n+1;
 	return *this;
 }
